@@ -170,7 +170,7 @@ def finish(prop, tier, seed, results, wall, write_evidence=True):
                          "loc": "%s:%s" % (s.get("sourceLocation", {}).get("file", ""), s.get("sourceLocation", {}).get("line", ""))}
                         for s in last]
             with open(path, "w") as f:
-                json.dump({"property": prop, "job": r.job.name, "title": r.job.title, "case": r.job.case,
+                json.dump({"property": prop, "job": r.job.name, "tier": tier, "seed": seed, "title": r.job.title, "case": r.job.case,
                            "failed_obligation": fail, "verifier": r.backend, "verifier_cmd": r.cmd,
                            "counterexample_inputs": inputs, "trace_tail": tail,
                            "native_replay": rep,
@@ -297,13 +297,33 @@ def write_evid(prop, tier, seed, results, wall, violations, known_hits, infra):
 
 
 def replay_file(path):
+    """re-run the native replay of a recorded violation against /repo's CURRENT tree (exit 1 = the failure reproduces)"""
+    import importlib
+    import tempfile
     d = json.load(open(path))
-    print(json.dumps({k: d[k] for k in ("property", "job", "failed_obligation", "counterexample_inputs")}, indent=1, default=str))
+    print(json.dumps({k: d.get(k) for k in ("property", "job", "failed_obligation", "counterexample_inputs")}, indent=1, default=str))
+    job = None
+    jd = os.path.join(vf.VERIF, "jobs")
+    for tier in (d.get("tier", "quick"), "quick", "thorough"):
+        for fn in sorted(os.listdir(jd)):
+            if fn.endswith(".py") and not fn.startswith("_"):
+                for j in importlib.import_module("jobs." + fn[:-3]).jobs(tier, int(d.get("seed", 0) or 0)):
+                    if j.name == d.get("job"):
+                        job = j
+        if job:
+            break
     rep = d.get("native_replay", {})
-    if rep.get("cmd") and os.path.exists(rep["cmd"].split()[0]):
-        rc, out, err, w = vf.sh(rep["cmd"].split(), timeout=300)
-        print(out + err)
-        return 1 if rc != 0 else 0
-    print("native replay program not present (build directories are removed between runs); "
-          "re-run ./check %s to regenerate; recorded output:\n%s" % (d["property"], rep.get("output", "")))
-    return 1 if rep.get("reproduced") else 0
+    if job is None or not job.replay:
+        print("no native replay program for this obligation family (the violation was reported with no-failing-input-found); "
+              "verifier output recorded at check time:\n%s" % (rep.get("output", "")))
+        return 1 if rep.get("reproduced") else 0
+    wd = tempfile.mkdtemp(prefix="replay-", dir=vf.BUILD if os.path.isdir(vf.BUILD) else None)
+    res = native_replay(job, d.get("failed_obligation", {}), d.get("counterexample_inputs") or {}, wd)
+    print("replay command: %s\n%s" % (res.get("cmd", ""), res.get("output", "")))
+    import shutil
+    shutil.rmtree(wd, ignore_errors=True)
+    if res.get("reproduced") is None:
+        print("replay could not be run; recorded at check time: reproduced=%s" % rep.get("reproduced"))
+        return 1 if rep.get("reproduced") else 0
+    print("REPRODUCED on the current tree" if res["reproduced"] else "not reproduced on the current tree")
+    return 1 if res["reproduced"] else 0
